@@ -9,7 +9,7 @@ from props import c08
 
 PROP = "C03"
 MODEL_TARGETS = ["Corr/WriteShow.vo"]
-THEOREMS = ["C03_widths_cover", "C03_format_is_layout", "C03_line_roundtrip", "C03_order_tables_agree", "C03_standardize_idem"]
+THEOREMS = ["C03_widths_cover", "C03_section_lines_unfold", "C03_format_is_layout", "C03_padding", "C03_line_roundtrip", "C03_stripped_line_roundtrip", "C03_curves_no_double_dot", "C03_order_tables_agree", "C03_item_roundtrip", "C03_expected_item_fields", "C03_unit_unbracketed", "C03_value_text", "C03_value_curves", "C03_value_number_string", "C03_value_roundtrip", "C03_value_int", "C03_expected_meta", "C03_section_roundtrip", "C03_blank_mnemonic_line", "C03_blank_name_parse", "C03_section_roundtrip_blanks", "C03_written_sections_read_back", "C03_section_ok_unfold", "C03_reads_back_unfold", "C03_other_text_unchanged", "C03_standardize_idem", "C03_standardize_cases", "C03_section_okb_ok"]
 ASSUMPTIONS = [
     "str(value) of a numeric header value is a plain decimal literal that num() maps back to an equal number (oracle; checked per case)",
     "str.upper/lower modelled for ASCII; generated mnemonics are ASCII",
@@ -84,7 +84,9 @@ def gen_case(rng):
     s = lasgen.Spec()
     s.version = "2.0"
     s.null = "-999.25"
-    s.well = [("STRT", "M", "1.0", "START"), ("STOP", "M", "3.0", "STOP"), ("STEP", "M", "1.0", "STEP")] + gen_items(rng, "W", rng.randint(0, 5))
+    big = rng.random() < 0.3
+    s.well = [("STRT", rng.choice(["M", "FT", ""]), "1.0", rng.choice(["START", "S"])), ("STOP", "M", "3.0", rng.choice(["STOP", "E"])),
+              ("STEP", "M", "1.0", "STEP")] + gen_items(rng, "W", 0 if big else rng.randint(0, 5))
     if rng.random() < 0.3:
         s.well.append((rng.choice(["UWI", "API", "uwi"]), "", rng.choice(["100091604920W300", "007", "0012"]), "ID"))
     nc = rng.randint(1, 4)
@@ -93,7 +95,8 @@ def gen_case(rng):
     s.params = gen_items(rng, "P", rng.randint(0, 5))
     s.other = [rng.choice(["Note one.", "second note: with colon", "   indented text  ", "x.y : z", "~not a title? no"]) for _ in range(rng.randint(0, 3))]
     s.other = [o for o in s.other if not o.strip().startswith("~")]
-    s.rows = [[str(float(i + 1))] + [str(10 * i + j) for j in range(1, nc)] for i in range(3)]
+    base = 10250.5 if big else 1.0
+    s.rows = [[str(base + i)] + [str(10 * i + j) for j in range(1, nc)] for i in range(3)]
     version = rng.choice([1.2, 2])
     mcase = rng.choice(["preserve", "upper", "lower"])
     return s, version, mcase
@@ -148,6 +151,15 @@ def oracle(s, version, mcase, text0):
     w = [("NULL", "", s.null, "NULL VALUE")] + list(s.well)
     if not items_equal(got_items(l2.well), expect_items(w, "W", mcase), skip=("STRT", "STOP", "STEP")):
         return "~Well differs: got %r expected %r" % (got_items(l2.well), expect_items(w, "W", mcase))
+    # the documented differences for STRT/STOP/STEP: values refreshed from the data (numbers), units aligned
+    # with the index curve's unit (or STRT's own unit when the curve has none)
+    idx_unit = s.curves[0][1] or [x for x in s.well if x[0] == "STRT"][0][1]
+    for it in l2.well:
+        if it.original_mnemonic.upper() in ("STRT", "STOP", "STEP"):
+            if it.unit != idx_unit:
+                return "%s unit came back as %r, expected the index unit %r" % (it.original_mnemonic, it.unit, idx_unit)
+            if c08.classify(it.value)[0] not in ("int", "float"):
+                return "%s value came back as %r, expected a number" % (it.original_mnemonic, it.value)
     ec = expect_items(s.curves, "C", mcase)
     if not items_equal(got_items(l2.curves), ec):
         return "~Curves differs: got %r expected %r" % (got_items(l2.curves), ec)
